@@ -512,6 +512,21 @@ def _terminates(body: List[ast.stmt]) -> bool:
     return False
 
 
+def _canon_test(n: ast.AST):
+    if isinstance(n, ast.Compare) and len(n.ops) == 1:
+        l, r, op = ast.unparse(n.left), ast.unparse(n.comparators[0]), type(n.ops[0]).__name__
+        if op in ("Gt", "GtE"):
+            l, r, op = r, l, {"Gt": "Lt", "GtE": "LtE"}[op]
+        if op in ("Eq", "NotEq") and r < l:
+            l, r = r, l
+        return (op, l, r)
+    if isinstance(n, ast.UnaryOp) and isinstance(n.op, ast.Not):
+        return ("not", _canon_test(n.operand))
+    if isinstance(n, ast.BoolOp):
+        return (type(n.op).__name__,) + tuple(sorted((_canon_test(v) for v in n.values), key=repr))
+    return ast.unparse(n)
+
+
 def _contradictions(ctx: Ctx, c: Collector) -> None:
     """Whole package: `if A: <leaves block>` immediately followed by `if A':` with A' canonically
     equal to A (e.g. `s < o` then `o > s`): the second branch can never be taken."""
@@ -533,7 +548,9 @@ def _contradictions(ctx: Ctx, c: Collector) -> None:
                         ta, tb = tests.get(id(a.test)), tests.get(id(b.test))
                         if ta is None or tb is None:
                             continue
-                        if boolfn.canon_leaf(ta) == boolfn.canon_leaf(tb):
+                        # as written: the two tests are the same expression up to the orientation of a comparison (what the values of
+                        # the locals fold to is not the question -- two different tests of one local may well coincide after substitution)
+                        if boolfn.canon_leaf(ta) == boolfn.canon_leaf(tb) and _canon_test(a.test) == _canon_test(b.test):
                             hits += 1
                             c.bad("dead-test", fi.qualname, f"if {T.show(ta)} ... if {T.show(tb)}",
                                   "the second test repeats the first, whose branch always leaves the block: its branch is dead code "
